@@ -50,7 +50,8 @@ func (v *Validator) IsValidOriginalDocument(payload []byte) error {
 	}
 
 	// The document must NOT have the id property
-	if doc.ID() != "" {
+	// (an id of any JSON type: ID() reads strings only)
+	if _, ok := doc[document.IDProperty]; ok {
 		return errors.New("document must NOT have the id property")
 	}
 
